@@ -247,7 +247,8 @@ bool IncSolver::solve() {
 #endif
     satisfy();
     double lastcost = DBL_MAX, cost = bs->cost();
-    while(fabs(lastcost-cost)>0.0001) {
+    unsigned maxtries = 100;
+    while((fabs(lastcost-cost)>0.0001 || splitCnt>0) && maxtries-- > 0) {
         satisfy();
         lastcost=cost;
         cost = bs->cost();
